@@ -370,10 +370,21 @@ def structural_eq(a, b, eq_elem):
             if any(a != b and b.startswith(a) for a in u for b in u):
                 return None
             conj.append(eq_elem(x, y))
-    # a join piece must be last or followed by nothing ambiguous: only allow it as final piece
-    for k, x in enumerate(pa):
-        if isinstance(x, JoinPiece) and k != len(pa) - 1:
-            return None
+    # a join piece must be last, or be followed by a concrete text whose first character occurs
+    # in no element and not in the separator (then the end of the join is unambiguous)
+    for side in (pa, pb):
+        for k, x in enumerate(side):
+            if isinstance(x, JoinPiece) and k != len(side) - 1:
+                nxt = side[k + 1]
+                if not (conc(nxt) and nxt):
+                    return None
+                ch = nxt[0]
+                if ch in x.sep:
+                    return None
+                for _, e in x.items:
+                    pv = possible_values(e)
+                    if pv is None or any(ch in v for v in pv):
+                        return None
     return z3.And(*conj) if conj else z3.BoolVal(True)
 
 
